@@ -29,6 +29,19 @@ CHECKS["C03"] = (
     "DESIGN.md 7/C03",
 )
 
+CHECKS["C07"] = (
+    "Coq theorems over Q (exactness, field identities, Euclidean division laws, expression trees by induction) about a model of the six number overloads + model-vs-implementation correspondence evaluated in Coq with the result's Python type canonicalised",
+    "Machine-checked for all rationals: each modelled overload equals the mathematical operation, division/floor-division by zero give 0, a == (a//b)*b + a%b with the sign conventions, floor division is the integer floor, (a/b)*b == a and the other field identities, and every expression tree over + - * / evaluates to its rational value (unbounded depth). The model is tied to elements.add/subtract/multiply/divide/modulo/integer_divide by exhaustive small boxes in both operand representations (Python int and sympy numbers) and sampled large operands.",
+    "Trusted: coqc kernel; that sympy's Rational implements Q and that the element functions equal the model is tested (exhaustive |p|<=12,q<=6 / |p|<=16,q<=8 plus sampled to 10^6/10^4), not proved; modulo by zero raises ZeroDivisionError (outside the property's text, recorded in evidence).",
+    "DESIGN.md 7/C07",
+)
+CHECKS["C17"] = (
+    "Coq theorems about naive reference definitions (primality <-> Znumtheory.prime, factorisation, divisors, gcd/lcm, factorial, Pascal, totient, next prime, positional notation, inverse pairs) + model-vs-implementation correspondence evaluated in Coq",
+    "Machine-checked for every integer in the stated domains: the reference definitions are the textbook functions (41 theorems). The sympy-backed elements are tied to the reference definitions by exhaustive comparison inside Coq (0..300 / 0..3000, dyads <= 40 / 120) and by an oracle with naive Python definitions (0..2000 / 0..20000, pairs <= 100 / 300, structured n to 10^12).",
+    "Trusted: coqc kernel; agreement of the sympy-backed implementations with the reference definitions is tested, not proved; inputs where the textbook function is undefined (prime_factors 0, divisors 0, totient 0) are excluded by hypothesis and listed in evidence; next_prime's fuel bound (a prime in (n, 2n+2]) is a stated hypothesis (Bertrand not proved); prime factor ORDER is unspecified and compared as a multiset.",
+    "DESIGN.md 7/C17",
+)
+
 NOT_YET = {}
 
 def main():
